@@ -43,7 +43,7 @@ def build(specs, faults, state):
             if sp["cb"] is not None:
                 k = state["calls"]; state["calls"] += 1
                 kind = faults.get(k)
-                if kind == "runtime": raise RuntimeError("boom")
+                if kind == "runtime": raise (RuntimeError, RecursionError, NotImplementedError)[k % 3]("boom")     # RuntimeError and its subclasses
                 if kind == "user": raise UserBoom()
                 if kind == "base": raise BaseBoom()
                 return vsum([user_sem(sp["cb"], acc), n])
